@@ -16,6 +16,10 @@ func FuzzRvInfo(f *testing.F) {
 	f.Add([]byte{0, 2, 5, 0x44, 10, 0, 0, 1, 4, 2, 0x19, 0x20, 0x00, 0xff, 0, 14, 0})
 	f.Add([]byte{1, 15, 1, 0x80, 13, 5, 0x1a, 0xff, 0xff, 0xff, 0xff, 12, 1, 0x01, 11, 1, 0x0a})
 	f.Add([]byte{0, 0, 0, 1, 0, 6, 1, 0xf5, 7, 1, 0x40, 8, 2, 0x82, 0x01})
+	// found by this target: an IP address sent as a CBOR array of four small integers (the codec
+	// decodes it into a []byte; now classified as a lenient encoding by the reference)
+	f.Add([]byte("0z0\x84\x00\x02\x00\x00"))
+	f.Add([]byte{1, 2, 5, 0x84, 10, 0, 0, 7, 6, 6, 0x82, 0x2f, 0x83, 1, 2, 3})
 	f.Fuzz(func(t *testing.T, in []byte) {
 		if len(in) == 0 || len(in) > 4096 {
 			t.Skip()
